@@ -58,6 +58,8 @@ def gen_case(seed, tier):
     if rng.random() < 0.25:
         # a KEY_FUNCTION that depends on context (the multi-tenant pattern): it is consulted on every operation
         params['KEY_FUNCTION'] = 'tenant'
+    if rng.random() < 0.2:
+        params['PREFIX_DISK'] = True
     n = rng.choice((15, 40, 80)) if tier == 'quick' else rng.choice((30, 80, 150))
     prog = []
     for i in range(n):
@@ -328,6 +330,19 @@ def run_case(case):
         if params.get('KEY_FUNCTION') == 'tenant':
             tenant = [0]
             params['KEY_FUNCTION'] = lambda key, key_prefix, version: 't%d/%s:%s:%s' % (tenant[0], key_prefix, version, key)
+        if params.pop('PREFIX_DISK', None):
+            # a CACHES entry that names its own Disk class in OPTIONS (here: one that stores every key under a prefix).  Django
+            # hands the same OPTIONS dict to every backend object it builds from the entry - one per thread
+            base_disk = world.dc.Disk
+
+            class PrefixDisk(base_disk):
+                def put(self, key):
+                    return super().put('pfx|' + key if type(key) is str else key)
+
+                def get(self, key, raw):
+                    key = super().get(key, raw)
+                    return key[4:] if type(key) is str and key.startswith('pfx|') else key
+            params['OPTIONS'] = {'disk': PrefixDisk}
         cache = mod.DjangoCache(world.path('dj'), params)
         cache.other_worker = mod.DjangoCache(world.path('dj'), params)
         m = ModelDjango(params)
